@@ -174,6 +174,7 @@ type mxCall struct {
 	RawReply     func(b *world.Backend, r *http.Request) *world.Reply
 	SpecMut      func(*drive.ReqSpec)
 	Lenient      bool // backend does not validate request payloads
+	MaxMsg       uint32
 }
 
 type mxObs struct {
@@ -317,7 +318,11 @@ func (call *mxCall) run() *mxObs {
 		}
 		return rep
 	}
-	tc, err := world.Build(b.config(), be)
+	cfg := b.config()
+	if call.MaxMsg != 0 {
+		cfg.MaxMsg = call.MaxMsg
+	}
+	tc, err := world.Build(cfg, be)
 	if err != nil {
 		obs.Err = err
 		return obs
